@@ -124,11 +124,11 @@ CLAIMED = {
 }
 
 NOT_APPLICABLE = {
- 'C12': "parse(format(v,p),p) is a relation between rendered texts; Verus has no str byte reasoning and CBMC cannot execute symbolic format!/String code here (measured, DESIGN 7).",
- 'C13': "parse_rfc3339/format_rfc3339 are text slicing/rendering with the arithmetic inline; no callable integer core, symbolic strings out of reach of both verifiers (DESIGN 7).",
- 'C14': "every panic site is String/&str slicing on arbitrary text; neither verifier can quantify over string contents here, and concrete strings would be testing (another family).",
- 'C16': "the cron parser is &str splitting into a HashSet; no integer core to contract; CBMC crashed at a 4-byte symbolic field (DESIGN 7).",
- 'C20': "Display/FromStr/serde round trips go through the same rendering and slicing as C12/C14; serde is an external crate.",
+ 'C12': "parse(format(v,p),p) relates whole strings: both directions go through the tokenizer parse_format_string (String::replace, chars(), Vec<String> building), the flat_map/collect assembly of format() and the replace_range/slicing loop of parse(); Verus cannot read that std machinery and CBMC does not finish on symbolic String contents (DESIGN 1, 5, 9). What is within reach is decided under C11: the text of every single pattern part.",
+ 'C13': "format_rfc3339 is format() with a fixed pattern (same assembly as C12) and parse_rfc3339 is text slicing with the arithmetic inline; no function boundary at which a contract could state the grammar without the string machinery (DESIGN 5).",
+ 'C14': "every panic site is String/&str slicing or indexing on arbitrary caller text; neither verifier can quantify over string contents here, and concrete strings would be testing (another family).",
+ 'C16': "the cron parser is split_whitespace / split(',') / to_lowercase / parse::<u8>() into HashSets built by iterator chains; no integer core to contract, CBMC crashed at a 4-byte symbolic field (DESIGN 5, 9). The iterator the parser feeds is decided under C17.",
+ 'C20': "Display/FromStr/serde round trips go through the same rendering, tokenizing and slicing as C12-C14; serde is an external crate.",
 }
 PENDING = "contract unit not built yet in this session (planned, see DESIGN 4); not claimed until its check exists"
 ALL = ['C%02d' % i for i in range(1, 21)]
